@@ -168,7 +168,7 @@ def impl(case):
                 newp = os.path.join(out['roots'][0], rel)
                 try:
                     os.makedirs(os.path.dirname(newp), exist_ok=True)
-                    data = b'OVERRIDE ' + files[target]
+                    data = b'OVERRIDE of ' + rel.encode('utf8') + b': ' + files[target]      # unique even for empty originals
                     with open(newp, 'wb') as f:
                         f.write(data)
                     mt0 = os.path.getmtime(target)
